@@ -7,6 +7,7 @@ package main
 // count for a table), runs the public API call that reaches the site on the real library and prints
 // a canonical outcome; the Lean driver evaluates the model of the site on the same values.
 //
+//   gr  <0/1 per row>                           GetRows: rows r=1..n, empty or with a value; number of rows returned
 //   bs  <hex>                                   bstrUnmarshal (hook VerifBstrUnmarshal): result bytes
 //   st  <idx> <nXf> <fillP> <fillId> <nFills> <borderP> <borderId> <nBorders> <fontP> <fontId> <nFonts>   GetStyle
 //   as  <hasView> <activeTab> <ids,…>           GetActiveSheetIndex
@@ -474,6 +475,31 @@ func (c *c14Ctx) opAG(a c14Ag) {
 	}
 }
 
+func (c *c14Ctx) opGR(flags string) {
+	c14SiteInit()
+	var sb strings.Builder
+	for i, fl := range flags {
+		if fl == '1' {
+			fmt.Fprintf(&sb, `<row r="%d"><c r="A%d"><v>%d</v></c></row>`, i+1, i+1, i+1)
+		} else {
+			fmt.Fprintf(&sb, `<row r="%d"/>`, i+1)
+		}
+	}
+	sheet := `<?xml version="1.0" encoding="UTF-8" standalone="yes"?><worksheet ` + c14NS + `><sheetData>` + sb.String() + `</sheetData></worksheet>`
+	data := c14Patch(c14SiteBase.plain, "xl/worksheets/sheet1.xml", func(string) string { return sheet })
+	res := c14Open(data, func(f *xl.File) string {
+		rows, err := f.GetRows("Sheet1")
+		if err != nil {
+			return "ERR"
+		}
+		return "ok " + strconv.Itoa(len(rows))
+	})
+	if flags == "" {
+		flags = "-"
+	}
+	c.site("gr "+flags, res, "panic:GetRows:accounting", "GetRows slices / allocates out of range")
+}
+
 func (c *c14Ctx) opBS(str string) {
 	res := c14Guard(func() string { return "ok " + hx(xl.VerifBstrUnmarshal(str)) })
 	c.site("bs "+hx(str), res, "panic:bstrUnmarshal:index", fmt.Sprintf("bstrUnmarshal panics on %q", str))
@@ -511,6 +537,16 @@ func c14GenBS(c *c14Ctx, rng *Rng, thorough bool) {
 // c14GenSites: boundary-heavy decoded values for every site.
 func c14GenSites(c *c14Ctx, rng *Rng, fx []*c14Fixture, thorough bool) {
 	c14GenBS(c, rng, thorough)
+	for _, fl := range []string{"", "0", "1", "00", "01", "10", "11", "0001", "1000", "0100010", "1111", "0000", "10000001"} {
+		c.opGR(fl)
+	}
+	for i := 0; i < 40; i++ {
+		var sb strings.Builder
+		for k := rng.Range(1, 30); k > 0; k-- {
+			sb.WriteByte("01"[rng.Intn(2)])
+		}
+		c.opGR(sb.String())
+	}
 	ids := []int{-9223372036854775808, -3, -1, 0, 1, 2, 3, 4, 7, 2147483648, 9223372036854775807}
 	ns := []int{-1, 0, 1, 2, 3}
 	n := 120
